@@ -422,7 +422,14 @@ ORACLES = {
     "md009": (md009, [{}, {"br_spaces": 3}, {"strict": True}, {"br_spaces": 0}]),
     "md012": (md012, [{}, {"maximum": 2}]),
     "md013": (md013, [{}, {"line_length": 40}, {"line_length": 20, "heading_line_length": 30, "code_block_line_length": 10}, {"strict": True, "line_length": 40},
-                      {"code_blocks": False, "line_length": 30}, {"headings": False, "line_length": 30}, {"stern": True, "line_length": 40}]),
+                      {"code_blocks": False, "line_length": 30}, {"headings": False, "line_length": 30}, {"stern": True, "line_length": 40},
+                      # every ordering of the three limits (each limit in turn the smallest / the largest)
+                      {"line_length": 40, "heading_line_length": 15, "code_block_line_length": 40, "strict": True},
+                      {"line_length": 40, "heading_line_length": 40, "code_block_line_length": 8, "strict": True},
+                      {"line_length": 12, "heading_line_length": 40, "code_block_line_length": 40, "strict": True},
+                      {"line_length": 30, "heading_line_length": 10, "code_block_line_length": 20},
+                      {"line_length": 10, "heading_line_length": 20, "code_block_line_length": 30},
+                      {"line_length": 20, "heading_line_length": 30, "code_block_line_length": 10, "strict": True}]),
     "md019": (md019, [{}]),
     "md023": (md023, [{}]),
     "md026": (md026, [{}, {"punctuation": "?!"}]),
